@@ -53,58 +53,45 @@ func checkSDTVal(c *Ctx, p *Prog, rule string) {
 		return
 	}
 	cl := outer.AnonFuncs[0]
-	norm := ""
+	// The digits are written as a plain decimal numeral: Go reads X[010] as X[8] and refuses X[08]. The helper
+	// that does it is interpreted in place; "the digits without their leading zeros" is the value of
+	// strings.TrimLeft(digits, "0"), which the world makes empty (all zeros) or not.
 	for _, wd := range []struct {
-		name string
-		b    int64
-		want string // %s stands for the function that normalises the digits
+		name    string
+		b       int64
+		allZero bool
+		want    string
 	}{
-		{"$T<digits>", 'T', `(("X["+%s(match[2:]))+"].(*token.Token)")`},
-		{"$Context", 'C', `"C"`},
-		{"$<digits>", '7', `(("X["+%s(match[1:]))+"]")`},
-		{"$0", '0', `(("X["+%s(match[1:]))+"]")`},
+		{"$T<digits>", 'T', false, `(("X["+NOZEROS)+"].(*token.Token)")`},
+		{"$T0", 'T', true, `"X[0].(*token.Token)"`},
+		{"$Context", 'C', false, `"C"`},
+		{"$<digits>", '7', false, `(("X["+NOZEROS)+"]")`},
+		{"$0 / $00", '0', true, `"X[0]"`},
 	} {
-		reg := &Region{Fn: cl, Params: map[string]Val{"match": VOpq{"match"}}}
-		out := InterpretSafe(reg, &MapWorld{Ints: map[string]int64{"match[1]": wd.b}})
+		var trimmed []string
+		reg := &Region{Fn: cl, Params: map[string]Val{"match": VOpq{"match"}}, Summaries: map[string]Summary{
+			"strings.TrimLeft": func(r *Run, cc *ssa.CallCommon, args []Val) (Val, error) {
+				trimmed = append(trimmed, render(args[0])+" without leading "+render(args[1]))
+				return VOpq{"NOZEROS"}, nil
+			}}}
+		nz := "7"
+		if wd.allZero {
+			nz = ""
+		}
+		out := InterpretSafe(reg, &MapWorld{Ints: map[string]int64{"match[1]": wd.b}, Strs: map[string]string{"NOZEROS": nz}})
 		got := out.Term
 		if out.Term == "return" && len(out.Results) == 1 {
 			got = out.Results[0]
 		}
-		ok := false
-		if m := regexp.MustCompile(`\+([A-Za-z_][A-Za-z0-9_.]*)\(match\[`).FindStringSubmatch(got); m != nil {
-			ok = got == fmt.Sprintf(wd.want, m[1])
-			norm = m[1]
-		} else if !strings.Contains(wd.want, "%s") {
-			ok = got == wd.want
-		}
-		c.Ob(rule, "SDTVal replacement: "+wd.name, ok && len(out.Events) == 0, fmt.Sprintf("code yields %s %s; required %s with the digits made a plain decimal first ($Tn = the n-th attribute as token, $Context = C, $n = the n-th attribute; Go reads X[010] as X[8] and refuses X[08])", got, out.Undecided, fmt.Sprintf(strings.ReplaceAll(wd.want, "%s", "%s"), "decimal")), p.FnPos(cl))
-	}
-	// the digits are turned into a decimal numeral without leading zeros
-	if norm != "" {
-		nf := p.Func("internal/frontend/token", norm)
-		if nf == nil {
-			c.Undecided(rule, "SDTVal: "+norm, "the function applied to the digits is not a function of the token package")
-		} else {
-			for _, allZero := range []bool{true, false} {
-				reg := &Region{Fn: nf, Summaries: map[string]Summary{
-					"strings.TrimLeft": func(r *Run, cc *ssa.CallCommon, args []Val) (Val, error) {
-						if render(args[1]) != `"0"` {
-							return VOpq{"TrimLeft(" + render(args[0]) + "," + render(args[1]) + ")"}, nil
-						}
-						return VOpq{"WITHOUT_LEADING_ZEROS"}, nil
-					}}}
-				str := "7"
-				if allZero {
-					str = ""
-				}
-				out := InterpretSafe(reg, &MapWorld{Strs: map[string]string{"WITHOUT_LEADING_ZEROS": str}})
-				want := "WITHOUT_LEADING_ZEROS"
-				if allZero {
-					want = `"0"`
-				}
-				c.Ob(rule, fmt.Sprintf("SDTVal: %s, digits all zero=%v", norm, allZero), out.Term == "return" && len(out.Results) == 1 && out.Results[0] == want, fmt.Sprintf("result %v %s; required %s (the numeral without its leading zeros, 0 for zero)", out.Results, out.Undecided, want), p.FnPos(nf))
+		ok := got == wd.want && len(out.Events) == 0
+		if wd.b != 'C' {
+			k := "1"
+			if wd.b == 'T' {
+				k = "2"
 			}
+			ok = ok && len(trimmed) == 1 && trimmed[0] == "match["+k+":] without leading \"0\""
 		}
+		stepOb(c, out, rule, "SDTVal replacement: "+wd.name, ok, fmt.Sprintf("code yields %s (digits normalised: %v) %s; required %s with NOZEROS = the digits after the $ (after $T) without their leading zeros ($Tn = the n-th attribute as token, $Context = C, $n = the n-th attribute; Go reads X[010] as X[8] and refuses X[08])", got, trimmed, out.Undecided, wd.want), p.FnPos(cl))
 	}
 	// outer: the replaced text without the << >> brackets, trimmed
 	reg := &Region{Fn: outer, Summaries: map[string]Summary{
